@@ -48,18 +48,25 @@ class Runner:
             self.cache[key] = d
         return d
 
-    def build(self, r, v, kw, cls):
+    def build(self, r, v, kw, cls, label_from=None):
+        """label_from = [recipe of another Enum, "attr" | "parsed"]: the library is given, wherever v holds a label string, the
+        label object that other Enum hands out for it (a string as far as the receiving construct is concerned)"""
         ctx = self.ctx
         ctx.ev()
         mb = model_build(r, v, kw)
+        libv = v
+        if label_from is not None:
+            libv = with_label_objects(v, self.con(label_from[0]), label_from[1])
         if mb[0] == "gap":
             ctx.count("model_gap")
             return None
         if mb[0] == "ok" and len(mb[1]) > (1 << 20):
             ctx.count("resource_gap_encoding_over_1MiB")      # e.g. a mutated count of 2^28 padding bytes: size, not semantics
             return None
-        lb = lib_build(self.con(r), v, kw)
+        lb = lib_build(self.con(r), libv, kw)
         case = {"dir": "build", "recipe": r, "kw": kw, "value": tag(v), "cls": cls}
+        if label_from is not None:
+            case["label_from"] = label_from
         if lb[0] != "ok" and lb[1] in ("MemoryError", "OverflowError"):
             ctx.count("resource_gap_library_memory")
             return None
@@ -103,6 +110,44 @@ class Runner:
         ctx.nontrivial("p", shape(r), cls, mp[1])
         if lp[0] == "ok":
             ctx.violation("parse-accepts-invalid:%s:%s" % (top_kind(r), mp[1]), "reference rejects %s (%s), library returned %r" % (data.hex(), mp[1], lp[1]), case)
+
+
+def with_label_objects(v, other, how):
+    if isinstance(v, str):
+        try:
+            return getattr(other, v) if how == "attr" else other.parse(other.build(v))
+        except Exception:
+            return v
+    if isinstance(v, dict):
+        return {k: with_label_objects(x, other, how) for k, x in v.items()}
+    if isinstance(v, list):
+        return [with_label_objects(x, other, how) for x in v]
+    return v
+
+
+def sweep_foreign_labels(R, ctx):
+    """label objects handed out by one Enum (attribute access, parse results) given to another construct with a label table:
+    they are strings, so the receiving table alone decides the integer - or that the label is unknown"""
+    tables = [[["a", 1], ["b", 2]], [["a", 16], ["c", 2]], [["b", 1], ["quit", 9]], [["a", 1], ["b", 2], ["quit", 255]], [["c", 1]]]
+    subs = [["name", "Byte"], ["name", "Int16ul"], ["name", "VarInt"]]
+    k = 0
+    for t1 in tables:
+        for t2 in tables:
+            if t1 is t2:
+                continue
+            for sub in subs:
+                for kind1 in ("Enum", "EnumClass"):
+                    k += 1
+                    if not ctx.mine(k):
+                        continue
+                    src = [kind1, ["name", "Byte"], t1]
+                    for dst in (["Enum", sub, t2], ["EnumClass", sub, t2], ["Mapping", sub, t2], ["Struct", [["h", ["name", "Byte"]], ["e", ["Enum", sub, t2]]]],
+                                ["Array", 2, ["Enum", sub, t2]]):
+                        for lab, _ in t1:
+                            v = lab if dst[0] not in ("Struct", "Array") else {"h": 7, "e": lab} if dst[0] == "Struct" else [lab, lab]
+                            for how in ("attr", "parsed"):
+                                R.build(dst, v, {}, "foreign-label", label_from=[src, how])
+                    ctx.nontrivial("foreign-label", repr(t1), repr(t2), sub[1], kind1)
 
 
 HOSTILE = [None, 1.5, "x", b"x", True, [], {}, -1, 2 ** 200, float("inf")]
@@ -527,6 +572,7 @@ def run(ctx):
     sweep_terminated(R, ctx)
     sweep_streamed_bits(R, ctx)
     sweep_zero_width(R, ctx)
+    sweep_foreign_labels(R, ctx)
     sweep_negative_lengths(R, ctx, rng)
     sweep_bits(R, ctx, rng)
     if ctx.mine(3):
@@ -552,6 +598,6 @@ def replay(ctx, case):
     R = Runner(ctx)
     r, kw = case["recipe"], case.get("kw", {})
     if case["dir"] == "build":
-        R.build(r, untag(case["value"]), kw, case.get("cls", "replay"))
+        R.build(r, untag(case["value"]), kw, case.get("cls", "replay"), label_from=case.get("label_from"))
     else:
         R.parse(r, untag(case["data"]), kw, case.get("cls", "replay"))
